@@ -99,7 +99,11 @@ func (vc *VC) evalArgs(call *ast.CallExpr, sig *types.Signature, st *State) []Va
 	var args []Value
 	if len(call.Args) == 1 && sig != nil && sig.Params().Len() > 1 {
 		// f(g()) with multi-value g
-		return vc.evalMulti(call.Args[0], st, sig.Params().Len())
+		if tv, ok := vc.cur().info.Types[call.Args[0]]; ok {
+			if tup, isTup := tv.Type.(*types.Tuple); isTup && tup.Len() > 1 {
+				return vc.evalMulti(call.Args[0], st, tup.Len())
+			}
+		}
 	}
 	for _, a := range call.Args {
 		args = append(args, vc.evalExpr(a, st))
@@ -156,6 +160,17 @@ func (vc *VC) callFunc(callee *types.Func, recv Value, recvExpr ast.Expr, call *
 		}
 	}
 	args := vc.packVariadic(sig, vc.evalArgs(call, sig, st), call, st)
+	if sig.Recv() != nil && recv == nil && len(args) == sig.Params().Len()+1 {
+		// method expression T.m(recv, args...) or a method value held in a variable
+		recv, args = args[0], args[1:]
+		shifted := *call
+		shifted.Args = call.Args[1:]
+		recvExpr = call.Args[0]
+		if tv, ok := vc.cur().info.Types[call]; ok {
+			vc.cur().info.Types[&shifted] = tv
+		}
+		call = &shifted
+	}
 	fc := vc.w.cs.Funcs[key]
 	fi := vc.w.byObj[callee]
 	if fi == nil {
@@ -191,6 +206,11 @@ func (vc *VC) callFunc(callee *types.Func, recv Value, recvExpr ast.Expr, call *
 					recursive = true // treated like recursion: not inlined
 				}
 			}
+		}
+		// in a safety sweep only small loop-free helpers are inlined: larger
+		// callees are swept (or havoced) on their own
+		if vc.fc != nil && vc.fc.Safety && len(vc.fc.Ensures) <= 1 && !(fc != nil && fc.Inline) && !smallBody(fi) {
+			recursive = true
 		}
 		if !recursive && (depth <= maxd || (fc != nil && fc.Inline)) {
 			vc.inlinedCalls[key] = true
